@@ -95,7 +95,28 @@ pub fn gen_c02(out: &mut dyn Write, thorough: bool, seed: u64) {
     }
 }
 
+
+/// every Unicode scalar value (except NUL, which `from_raw` rejects) as a token of its own and as a tag, 64 per case
+pub fn gen_all_scalars(out: &mut dyn Write, oracle: &str) {
+    let mut chunk = String::new();
+    let mut n = 0;
+    for c in (1u32..=0x10FFFF).filter_map(char::from_u32) {
+        chunk.push(c);
+        n += 1;
+        if n == 64 {
+            writeln!(out, "X {} {oracle}", hexs(&chunk)).unwrap();
+            chunk.clear();
+            n = 0;
+        }
+    }
+    if !chunk.is_empty() {
+        writeln!(out, "X {} {oracle}", hexs(&chunk)).unwrap();
+    }
+    writeln!(out, "X {} {oracle}", hexs("a\0b")).unwrap();
+}
+
 pub fn gen_c03(out: &mut dyn Write, thorough: bool, seed: u64) {
+    gen_all_scalars(out, "c03");
     let mut r = Rng::new(seed);
     for t in ["a\\ b/x\\/y c", "a/x//z b", "\\\\/\\ ", "a//", "a\\", "\\"] {
         writeln!(out, "S Ftok:{},obs:TBKGIW c03idem", hexs(t)).unwrap();
@@ -134,6 +155,7 @@ pub fn gen_c03(out: &mut dyn Write, thorough: bool, seed: u64) {
 }
 
 pub fn gen_c04(out: &mut dyn Write, thorough: bool, seed: u64) {
+    gen_all_scalars(out, "c04");
     let mut r = Rng::new(seed);
     for (t, l, tags) in [("abc", "NU", vec![(1usize, "x-y")]), ("ab", "W", vec![(0, "a|b"), (1, "c d\\e/f")])] {
         let mut ops = format!("Fraw:{},setbs:{},reset:1", hexs(t), l);
